@@ -17,7 +17,9 @@ import (
 // reason the omitted fields do not matter.
 // ---------------------------------------------------------------------------------
 
-var partialCopyAllowed = map[string]string{}
+var partialCopyAllowed = map[string]string{
+	"codec.(*Codec).mergeContiguousSeries: telem.Series": "the merged series takes the first series' type, alignment and time range; its Data is the concatenation built right below",
+}
 
 type partialCopy struct {
 	fn      *FuncNode
